@@ -125,4 +125,29 @@ def processRun (r : ReadAt) (asLoad : Bytes → Load) (c : CmdLine) (evs : List 
   d.set (writerDir c.env c.files)
     (runLoads codeStyle (.load (firstLoad r asLoad c d) none :: evs) ⟨none, d (writerDir c.env c.files)⟩).fs
 
+/-! ### where the persistence flag of a config comes from -/
+
+/-- the Caddyfile global option `persist_config` (httpcaddyfile/options.go parseOptPersistConfig:
+    the only accepted argument is `off`) -/
+inductive PersistOpt
+  | absent
+  | off
+deriving DecidableEq, Repr
+
+/-- `admin.config.persist` of the adapted JSON (httpcaddyfile/httptype.go: `off` ↦ a pointer to
+    `false`, otherwise the field is left out) -/
+def adaptPersist : PersistOpt → Option Bool
+  | .absent => none
+  | .off => some false
+
+/-- the test of `unsyncedDecodeAndRun` on the decoded field: absent or true -/
+def persistOfJSON : Option Bool → Bool
+  | none => true
+  | some b => b
+
+/-- a load of a config that came from a Caddyfile -/
+def caddyfileLoad (cfg : Bytes) (opt : PersistOpt) (force accepted : Bool) : Load :=
+  { cfg := cfg, force := force, accepted := accepted, nonNil := true,
+    persistCfg := persistOfJSON (adaptPersist opt), allowPersist := true }
+
 end CaddyModel.C14
